@@ -72,6 +72,10 @@ CLASSIFIERS["sk_rf"] = (_sk(lambda: RandomForestClassifier(n_estimators=4, rando
 CLASSIFIERS["sk_sgd"] = (_sk(lambda: SGDClassifier(loss="log_loss", random_state=0, max_iter=50, tol=None)), False, True)
 
 
+CLASSIFIERS["sk_sgd_warm"] = (_sk(lambda: SGDClassifier(loss="log_loss", warm_start=True, random_state=0, max_iter=30, tol=None)), False, True)
+CLASSIFIERS["sk_rf_warm"] = (_sk(lambda: RandomForestClassifier(n_estimators=3, warm_start=True, random_state=0)), False, True)
+
+
 @_c("sliding")
 def sliding(classes, ml, cm, seed, **kw):
     inner = SklearnClassifier(GaussianNB(var_smoothing=1e-3), classes=classes, missing_label=ml, random_state=0)
